@@ -456,9 +456,32 @@ func TestVerif_C02(t *testing.T) {
 		remoteCfg[e] = e.writeConfig(vkConfigOpts{Name: "config-remote", NoGsfa: true, RemoteBase: remoteBase})
 		e.ConfigPath = saved
 	}
+	// from pieces: each epoch's CAR split by the real split-car action into pieces of at most a third of its size,
+	// the pieces served over HTTP and reassembled by the split-CAR reader (config data.car.from_pieces)
+	// The reassembled view (original header + block DAGs) has the offsets of the original CAR only when every
+	// Subset / Epoch node follows all blocks, so these epochs are generated with one subset at the end (the other
+	// configurations interleave subsets); their indexes are built on the original CAR as usual.
+	piecesCfg := map[*vEpoch]string{}
+	var flatEps []*vEpoch
+	for i, sh := range shapes {
+		sh.SubsetEvery = 0
+		fe, err := vkBuildEpoch(filepath.Join(base, fmt.Sprintf("flat%d", i)), sh, false)
+		if err != nil {
+			R.Internal("cannot build epoch %d (single subset): %v", sh.Epoch, err)
+			return
+		}
+		flatEps = append(flatEps, fe)
+		p, n, err := fe.vkSplitAndConfig(int64(len(fe.Truth.Bytes)/3+200), remoteBase, vkConfigOpts{NoGsfa: true})
+		if err != nil {
+			R.Internal("cannot split epoch %d into pieces: %v", fe.Truth.Epoch, err)
+			return
+		}
+		piecesCfg[fe] = p
+		R.Bounds[fmt.Sprintf("pieces_of_epoch_%d", fe.Truth.Epoch)] = n
+	}
 	type c02Cfg struct {
 		mask, conc int
-		legacy     int // 0 = current formats, 1 = every epoch legacy, 2 = only the middle epoch legacy, 3 = every epoch served over HTTP, 4 = only the middle epoch over HTTP
+		legacy     int // 0 = current formats, 1 = every epoch legacy, 2 = only the middle epoch legacy, 3 = every epoch served over HTTP, 4 = only the middle epoch over HTTP, 5 = every epoch's CAR from split pieces over HTTP
 	}
 	var cfgs []c02Cfg
 	for _, mask := range subsets {
@@ -475,7 +498,9 @@ func TestVerif_C02(t *testing.T) {
 	}
 	cfgs = append(cfgs, c02Cfg{7, 1, 2})
 	cfgs = append(cfgs, c02Cfg{7, concs[len(concs)-1], 3}, c02Cfg{2, 1, 3}, c02Cfg{7, 1, 4})
+	cfgs = append(cfgs, c02Cfg{7, concs[len(concs)-1], 5}, c02Cfg{2, 1, 5})
 	R.Bounds["remote_http_configurations"] = 3
+	R.Bounds["from_pieces_configurations"] = 2
 	R.Bounds["legacy_format_configurations"] = len(legacyMasks) + 1
 	idx := int64(0)
 	for _, cf := range cfgs {
@@ -491,7 +516,7 @@ func TestVerif_C02(t *testing.T) {
 			}
 			cfgName := fmt.Sprintf("epochs=%03b conc=%d", mask, conc)
 			if cf.legacy != 0 {
-				cfgName += []string{"", " legacy-format=all", " legacy-format=middle-epoch", " remote-http=all", " remote-http=middle-epoch"}[cf.legacy]
+				cfgName += []string{"", " legacy-format=all", " legacy-format=middle-epoch", " remote-http=all", " remote-http=middle-epoch", " car-from-split-pieces-over-http"}[cf.legacy]
 			}
 			var loaded []*vEpoch
 			// two worlds per configuration, each with a cache of its own: passes 0 (ascending, cold) and 1
@@ -507,12 +532,18 @@ func TestVerif_C02(t *testing.T) {
 					if mask&(1<<i) == 0 {
 						continue
 					}
+					if cf.legacy == 5 {
+						e = flatEps[i]
+					}
 					cfgPath := e.ConfigPath
 					if cf.legacy == 1 || (cf.legacy == 2 && i == 1) {
 						cfgPath = legacyCfg[e]
 					}
 					if cf.legacy == 3 || (cf.legacy == 4 && i == 1) {
 						cfgPath = remoteCfg[e]
+					}
+					if cf.legacy == 5 {
+						cfgPath = piecesCfg[e]
 					}
 					ep, err := vkLoadEpoch(cfgPath, cache)
 					if err != nil {
